@@ -35,7 +35,7 @@ def handle (c obs : String) : String × Bool × String :=
   match parseCase c with
   | none => ("bad-case", false, "unparsable case")
   | some (p, rs) =>
-    let model := modelText p rs
+    let model := agreeOr { } (modelText p rs) obs
     match parseObs obs, rs with
     | some [o], [r] => let (ok, why) := specRun p r o; (model, ok, why)
     | some _, _ => (model, true, "")
